@@ -307,7 +307,8 @@ theorem lemma1_qexpr {pop : Option Var} {ch pa : List Var} {D topo : List Name} 
 
 /-! ### compute_c_factor -/
 
-theorem computeCFactor_good {q e : Expr} {D H topo : List Name} (hqq : IsQExpr q) (hq : Voc pop0 N q) (hD : D ≠ [])
+theorem computeCFactor_good {q e : Expr} {D H topo : List Name} (hqq : IsQExpr q) (hq : Voc pop0 N q)
+    (hD : isFracProdSum q = true → D ≠ [])
     (ht : ∀ n ∈ topo, n ∈ H → n ∈ N) (h : computeCFactor D H q topo = .ok e) : IsQExpr e ∧ Voc pop0 N e := by
   have ht' : ∀ n ∈ topo.filter (· ∈ H), n ∈ N := by
     intro n hn
@@ -317,7 +318,7 @@ theorem computeCFactor_good {q e : Expr} {D H topo : List Name} (hqq : IsQExpr q
   simp only at h
   split at h
   · rename_i hfps
-    exact ⟨lemma4_qexpr hD hfps h, voc_lemma4 hq ht' h⟩
+    exact ⟨lemma4_qexpr (hD hfps) hfps h, voc_lemma4 hq ht' h⟩
   · split at h
     · cases h
     · rename_i hfps hp
@@ -452,7 +453,7 @@ theorem identifyAux_good (G : MG Name) (topo C : List Name) :
                 | ok qT' =>
                   rw [hqT] at h
                   simp only at h
-                  have hgT := computeCFactor_good hgA.1 hgA.2 hT'ne
+                  have hgT := computeCFactor_good hgA.1 hgA.2 (fun _ => hT'ne)
                     (fun n _ hnA => hT n (hAT n hnA)) hqT
                   exact ih T' qT' r hgT (fun t ht => hoA t (hT'A t ht)) h
           · cases h
